@@ -10,7 +10,7 @@ BASE_OFF = ("cd /repo && env -u NFLOWS_VERIF /venv/bin/python -m pytest -ra -q -
 # id -> (technique, level text, level note, design ref)
 CHECKS = {
     "C20": ("icontract post-conditions on the real helpers (direct exhaustive small-shape driver + contracts "
-            "installed at the library's own call sites) + TorchDispatchMode write-watch and bitwise snapshots",
+            "installed at the library's own call sites) + TorchDispatchMode write-watch and bitwise snapshots; big-integer predicates, mixed-dtype bin search, helpers called in the non-default floating dtype",
             "Runtime contracts evaluated on every helper for all shapes with <=4 dims and extents <=3 (<=4 thorough), "
             "four tensor layouts, structured and random values, against numpy reference semantics; argument "
             "immutability observed op-by-op. Held-on-what-was-observed, exhaustive only over the small-shape grid.",
@@ -21,7 +21,7 @@ CHECKS = {
 CHECKS["C01"] = (
     "autograd-Jacobian monitor: per-item reverse-mode Jacobian of the real forward pass (float64 world) -> slogdet vs the "
     "returned logabsdet, over the whole transform zoo x configurations x parameter policies x structured inputs; spline "
-    "functions driven directly with non-default boxes; hand-chained sum for composites; finite-difference cross-check (thorough)",
+    "functions driven directly with non-default boxes; hand-chained sum for composites; finite-difference cross-check (thorough); the same oracle on 'revalued' objects (built and called with other values, then loaded)",
     "Every batch item's returned log-abs-det is compared with slogdet of that item's autograd Jacobian to 1e-7 (observed "
     "noise <= 2e-11), for all 45 transform families incl. wrappers, 2-D and image inputs, with/without context, six parameter "
     "policies (fresh, zero, randn 0.3/1/3, extreme), inputs on knots' neighbours, end-points and tail bounds. Sampled, not exhaustive.",
@@ -32,7 +32,7 @@ CHECKS["C01"] = (
 CHECKS["C02"] = (
     "round-trip monitor on the real forward/inverse (float64 deciding, float32 pass) with Jacobian-singular-value-scaled "
     "tolerances, log-det antisymmetry evaluated at inverse(y); spline functions driven directly in the inverse direction on "
-    "y-knots, their ulp neighbours and box end-points",
+    "y-knots, their ulp neighbours and box end-points; revalued objects (called with other values, then loaded) as a pre-history",
     "inverse(forward(x)) ~ x, forward(inverse(y)) ~ y, logabsdet_inv(y) = -logabsdet_fwd(inverse(y)) and finiteness are checked per "
     "batch item for every invertible family x configuration x six parameter policies (incl. exactly zero and strongly non-uniform) "
     "x structured inputs, with tolerance 1e-7 in float64 scaled by the item Jacobian's extreme singular values only when the "
@@ -53,7 +53,7 @@ CHECKS["C06"] = (
     "DESIGN.md section 3 C06")
 CHECKS["C07"] = (
     "bitwise identity monitor + single-element perturbation (metamorphic) monitor + autograd Jacobian sparsity/sign pattern on the "
-    "real coupling layers, masks enumerated exhaustively for 2..5 features with numeric values of both signs",
+    "real coupling layers, masks enumerated exhaustively for 2..5 features with numeric values of both signs; the same calls on other memory layouts of the inputs; a twin built from a mask tensor that the caller then modifies",
     "Every non-trivial subset mask for 2-5 features, with mask values drawn from {-2,-1,0 | 0.5,1,3}, for all seven coupling classes, "
     "2-D and image inputs, both directions, with/without context and unconditional transform: identity features compared bit-for-bit, "
     "each transformed input perturbed alone and every other output required bit-identical, own output monotone.",
@@ -95,7 +95,7 @@ CHECKS["C09"] = (
 CHECKS["C17"] = (
     "exception-type / finiteness monitor with single-probe batches placed on, one ulp inside/outside, 1e-6 inside/outside and far "
     "outside every domain boundary, for the restricted nonlinearities, the four spline functions (boxes and tail bounds 0.5..1e6, "
-    "float32 and float64) and their coupling / autoregressive / CDF wrappers",
+    "float32 and float64) and their coupling / autoregressive / CDF wrappers; boxes whose square leaves the floating range, one-bin splines with tails, single-row batches",
     "InputOutsideDomain (exactly the library's class or a subclass) must be raised iff the probe is outside the mathematical domain "
     "of that direction; in-domain probes must return finite numbers and raise nothing (any other exception type is a violation); "
     "unconstrained splines must accept every finite input and be the identity beyond the bound.",
@@ -114,7 +114,7 @@ CHECKS["C11"] = (
 CHECKS["C14"] = (
     "lock-step reference-model monitor: pure-tensor models of the documented ActNorm / BatchNorm life-cycle stepped next to the "
     "real layers over histories {train, eval, forward, inverse, save+load into a fresh instance}, exhaustive to length 4 (5 thorough) "
-    "plus random long histories; state_dict, outputs and log-dets compared after every step",
+    "plus random long histories; state_dict, outputs and log-dets compared after every step; each history with the layer alone or inside a container and with the mode set before or after load_state_dict",
     "Every step's outputs / log-dets and the full state dict are compared with the reference (1e-10); the initialising batch's outputs "
     "must have zero mean and unit variance per feature/channel; BatchNorm must refuse its inverse in training mode and only there.",
     "The variance estimator convention (ddof) is learned from the first observation and then required to stay fixed; float64 world.",
@@ -133,7 +133,7 @@ CHECKS["C13"] = (
     "TorchDispatchMode write-watch on every public call (schema is_write flags x storage identity of caller tensors, parameters, "
     "buffers) + bitwise before/after snapshots (incl. the storage surrounding views) + history-independence monitor (every call of a "
     "random call sequence vs the same call on a fresh never-called copy, bit for bit) + the repository's own test-suite run under a "
-    "class-level contract plugin (argument bit patterns and eval-mode state before/after each of ~670 wrapped calls)",
+    "class-level contract plugin (argument bit patterns and eval-mode state before/after each of ~670 wrapped calls); reuse/update phase: caller refills its argument tensors in place under no_grad, values change through train()..eval(), results compared bitwise with a never-called copy",
     "For transforms, flows and distributions in eval and training mode, inputs/context presented plain, as slices of a larger tensor, "
     "non-contiguous and as requires_grad leaves: no ATen op may write into caller or (eval) model storage, snapshots must be bit-identical, "
     "training-mode writes must be on the documented statistics only, and results must not depend on earlier calls (mixed operations, mixed "
@@ -179,7 +179,7 @@ CHECKS["C18"] = (
     "icontract post-conditions (named predicates) installed at class level on the real Distribution.log_prob / sample / "
     "sample_and_log_prob and Flow.sample_and_log_prob, driven over all distribution and flow classes x num_samples x batch_size x "
     "context (incl. shape-changing image flows and context-free user bases); documented-rejection probes; duplicate-draw and two-sample KS "
-    "monitors for batched generation; shape contracts on the repository's own test-suite run under a class-level contract plugin",
+    "monitors for batched generation; shape contracts on the repository's own test-suite run under a class-level contract plugin; rejection probes over all row-count pairs and all (bad count, other count) combinations",
     "Shapes [rows] / [n,*event] / [rows,n,*event] are asserted on every call (incl. the library's internal ones) for num_samples 1,2,5,7 x "
     "batch_size none,1,2,3,5,7,8 x context none / 1 / 3 rows / embedding net x event shapes [1],[2],[3],[2,3],[2,1,2]; valid calls must not "
     "raise; mismatching context rows must give ValueError and counts in {0,-1,2.0,'3',None} TypeError; batched sampling must not "
@@ -190,7 +190,7 @@ CHECKS["C18"] = (
 CHECKS["C03"] = (
     "quadrature monitor: exp(log_prob) of the real flow integrated over its typed data domain at three resolutions (compactified "
     "midpoint rule; sigmoid / exponential substitutions for bounded and half-line domains) for random typed programs in data "
-    "dimension 1 and 2, with a reachability test of the base's mass and explicit truncation / resolution error estimates",
+    "dimension 1 and 2, with a reachability test of the base's mass and explicit truncation / resolution error estimates; 2-D integrals only where the flow's own draws fall inside the resolved grid; labelled UMNN probe flows judged by a reference model of open finding F-UMNN-NORM",
     "|integral - 1| <= 1e-4 + 4*est (1-D, 1e5-4e5 nodes) resp. 5e-3 + 4*est (2-D, 260^2-1400^2 nodes) for programs "
     "data-domain prefix {none, Logit, inverse Cauchy CDF, log, atanh} + 1-3 transforms (affine / linear family / all spline CDFs "
     "with tails / composite CDF / Sigmoid..Logit pairs with temperatures / masked autoregressive / couplings / norm layers / "
